@@ -189,7 +189,7 @@ ROWS = {}
 # named generator paths that reach confirmed defects; everything they produce is excluded from
 # the bulk generator by construction (also where the same field kind occurs nested)
 PROBES = {
-    "nonascii": "non-ASCII text (TextString cannot encode it); all other text leaves are ASCII",
+    "nonascii": "mostly non-ASCII text on the TextString primitive (elsewhere one text leaf in four)",
     "interval_max": "Interval value 2**32 (accepted by validate(), rejected by write())",
     "drop_reader_req": "fields the writer tolerates missing while the reader demands them / "
                        "reads them back as a different value (always supplied in bulk)",
@@ -980,7 +980,12 @@ BIG_EDGES = sorted(set(
     [0, -1, 1, 255, 256, -255, -256]
     + [s * (2 ** k) + d for s in (1, -1) for k in (63, 64, 127, 128, 512) for d in (-1, 0, 1)]))
 _ASCII = st.characters(min_codepoint=0, max_codepoint=127)
-_NONASCII_SAMPLES = ["é", "naïve", "ü" * 8, "€", "key-\U0001f511", "\u0080"]
+_NONASCII_SAMPLES = ["é", "naïve", "ü" * 8, "€", "key-\U0001f511", "\u0080",
+                     # canonically equivalent to a shorter composed form (not in NFC / NFKC):
+                     # the codec carries code points, not equivalence classes
+                     "Re\u0301sume\u0301", "A\u030angstro\u0308m", "\u212bngstr\u00f6m",
+                     "\u1112\u1161\u11ab\u1100\u1173\u11af", "\u2126", "\ufb01le", "e\u0301" * 4,
+                     "\u0301", "a\u0323\u0302", "a\u0302\u0323", "\u00a0x", "\u1e9b\u0323"]
 
 
 def _len_st(depth):
@@ -993,11 +998,15 @@ def _len_st(depth):
 def _text_st(depth, nonascii=False, min_len=0):
     base = _len_st(depth).map(lambda n: max(n, min_len)).flatmap(
         lambda n: st.text(_ASCII, min_size=n, max_size=n))
+    wide = [st.sampled_from(_NONASCII_SAMPLES).map(lambda t: t if len(t) >= min_len else t * 8),
+            st.text(st.characters(min_codepoint=128, max_codepoint=0x2fff),
+                    min_size=max(1, min_len), max_size=max(9, min_len)),
+            st.text(st.sampled_from("ae\u0301\u0308\u030a\u0323k-\u212b\u1112\u1161\u11ab"),
+                    min_size=max(1, min_len), max_size=max(9, min_len))]
     if nonascii:
-        return st.one_of(st.sampled_from(_NONASCII_SAMPLES),
-                         st.text(st.characters(min_codepoint=128, max_codepoint=0x2fff),
-                                 min_size=1, max_size=9), base)
-    return base
+        return st.one_of(*(wide + [base]))
+    # everywhere else non-ASCII text is one choice in four
+    return st.one_of(base, base, base, st.one_of(*wide))
 
 
 def _bytes_st(depth):
